@@ -156,8 +156,8 @@ def _get_only_mach_data(data: List[DragDataPoint]) -> List[float]:
      "            raise UnitConversionError(f'{self.__class__.__name__}: unit {units} is not supported')\n",
      "reading a quantity in an energy or pressure unit of another dimension returns 0 instead of raising"),
     ("c13-wind-clamps-until-distance-in-place", "C13", CO,
-     "        self.until_distance = PreferredUnits.distance(until_distance or Distance.Foot(self.MAX_DISTANCE_FEET))\n",
-     "        self.until_distance = PreferredUnits.distance(until_distance or Distance.Foot(self.MAX_DISTANCE_FEET))\n"
+     "            until_distance if until_distance is not None else Distance.Foot(self.MAX_DISTANCE_FEET))\n",
+     "            until_distance if until_distance is not None else Distance.Foot(self.MAX_DISTANCE_FEET))\n"
      "        if self.until_distance._value < 12.0:\n            self.until_distance._value = 12.0\n",
      "a library call rewrites the magnitude of the caller's quantity (Wind clamps a short until-distance in place)"),
     # ---------------------------------------------------------------- C14
@@ -278,6 +278,70 @@ def _get_only_mach_data(data: List[DragDataPoint]) -> List[float]:
          "        return Angular.Radian(self.barrel_elevation)\n"),
      ], None, None,
      "history-only: the search warm-starts from the elevation found last time for the same weapon and distance"),
+    # ---------------------------------------------------------------- C18
+    ("c18-radian-falsy", "C18", UN,
+     "                    if (_unit := _parse_unit(value)) is not None:\n",
+     "                    if _unit := _parse_unit(value):\n",
+     "the defect repaired by a fix: commit, re-seeded at one site (PreferredUnits.set ignores 'radian')"),
+    ("c18-hasattr-shortcut", "C18", UN,
+     "    if input_ in getattr(PreferredUnits, '__dataclass_fields__'):\n",
+     "    if hasattr(PreferredUnits, input_):\n",
+     "the defect repaired by a fix: commit, re-seeded ('defaults', '__doc__' accepted as unit names)"),
+    ("c18-step-units-exact-case", "C18", IN,
+     "                            _units = _parse_unit(_name) if isinstance(_name, str) else None\n",
+     "                            _units = Unit[_name] if _name in Unit.__members__ else None\n",
+     "the defect repaired by a fix: commit, re-seeded (config file step units only in exact case)"),
+    ("c18-global-step-read-lazily", "C18", TC,
+     "        preferred_step = self._config.max_calc_step_size_feet\n        if step == 0:",
+     "        preferred_step = self._config.max_calc_step_size_feet\n"
+     "        if preferred_step == 0.5:\n"
+     "            import py_ballisticcalc.trajectory_calc as _tc\n"
+     "            preferred_step = _tc._globalMaxCalcStepSizeFeet\n"
+     "        if step == 0:",
+     "history-only: a calculator created with the default step follows later changes of the global step"),
+    ("c18-default-calculators-share-engine", "C18", IF,
+     "        self._calc = TrajectoryCalc(create_interface_config(self._config))\n",
+     "        if self._config is None:\n"
+     "            if not hasattr(Calculator, '_default_engine'):\n"
+     "                Calculator._default_engine = TrajectoryCalc(create_interface_config(None))\n"
+     "            self._calc = Calculator._default_engine\n"
+     "        else:\n"
+     "            self._calc = TrajectoryCalc(create_interface_config(self._config))\n",
+     "history/schedule: calculators created without settings share one engine created with the first one's globals"),
+    ("c18-zero-global-step-accepted", "C18", TI,
+     "    if (_value := PreferredUnits.distance(value)).raw_value <= 0:\n",
+     "    if (_value := PreferredUnits.distance(value)).raw_value < 0:\n",
+     "a global step of exactly 0 is accepted"),
+    ("c18-alias-by-substring", "C18", UN,
+     "        if string_to_find in (each.lower() for each in aliases_tuple):\n",
+     "        if any(string_to_find in each.lower() for each in aliases_tuple):\n",
+     "aliases matched by substring: 'in' selects inch/100yd, unknown fragments select units"),
+    ("c18-torn-file-salvaged-with-prefix-names", "C18", [
+        (IN, "            _config = tomllib.load(fp)\n",
+         "            _raw = fp.read()\n"
+         "            try:\n"
+         "                _config = tomllib.loads(_raw.decode('utf-8', 'replace'))\n"
+         "            except tomllib.TOMLDecodeError:\n"
+         "                _pu = {}\n"
+         "                for _line in _raw.decode('utf-8', 'replace').splitlines():\n"
+         "                    if '=' in _line and not _line.strip().startswith(('#', '[')):\n"
+         "                        _k, _v = _line.split('=', 1)\n"
+         "                        _pu[_k.strip()] = _v.strip().strip('\\'\"')\n"
+         "                _config = {'pybc': {'preferred_units': _pu}}\n"),
+        (UN, "                    if (_unit := _parse_unit(value)) is not None:\n",
+         "                    _unit = _parse_unit(value)\n"
+         "                    if _unit is None and len(value.strip()) >= 2:\n"
+         "                        _unit = next((u for u in Unit if u.name.lower().startswith(value.strip().lower())), None)\n"
+         "                    if _unit is not None:\n"),
+     ], None, None,
+     "fault-only (two cooperating sites): a torn config file is salvaged line by line and a cut-off name is completed "
+     "by prefix, selecting a unit the file never named"),
+    ("c18-step-floor", "C18", TC,
+     "        preferred_step = self._config.max_calc_step_size_feet\n        if step == 0:",
+     "        preferred_step = max(self._config.max_calc_step_size_feet, 0.5) if self._config.max_calc_step_size_feet < 0.3 "
+     "else self._config.max_calc_step_size_feet * (3.0 if self._config.cGravityConstant != -32.17405 else 1.0)\n"
+     "        if step == 0:",
+     "configuration-dependent: with a non-default gravity the integration step is 1.5x the configured maximum"),
 ]
 
 
